@@ -102,7 +102,7 @@ Invoke(e) ==
 
 Step(e) ==
   CASE e.e = "hist" -> StartHist(e)
-    [] e.e = "write" -> /\ fs' = [fs EXCEPT ![e.m.p] = [m |-> e.m.mt, c |-> e.m.c]] /\ UNCHANGED <<h, rec, cause>>
+    [] e.e \in {"write", "touch"} -> /\ fs' = [fs EXCEPT ![e.m.p] = [m |-> e.m.mt, c |-> e.m.c]] /\ UNCHANGED <<h, rec, cause>>
     [] e.e = "delete" -> /\ fs' = [fs EXCEPT ![e.m.p] = Absent] /\ UNCHANGED <<h, rec, cause>>
     [] e.e = "rename" -> /\ fs' = IF fs[e.m.from] = Absent THEN fs ELSE [fs EXCEPT ![e.m.to] = fs[e.m.from], ![e.m.from] = Absent]
                          /\ UNCHANGED <<h, rec, cause>>
